@@ -131,6 +131,10 @@ def self_validate(pid, repo, base_code, base_ck, jobs=None, verbose=True):
             pid, killed, nm - sum(1 for v, r in zip(variants, results) if v['kind'] == 'M' and r.get('skipped')),
             silent, ne - sum(1 for v, r in zip(variants, results) if v['kind'] == 'E' and r.get('skipped')),
             skipped, time.time() - t0))
+    if verbose:
+        for v, r in zip(variants, results):
+            if r.get('skipped'):
+                print('  skipped (seed pattern absent in the current tree): %s %s' % (v['name'], r.get('why', '')))
     if problems:
         for p in problems:
             print('ANALYSIS-ERROR property=%s self-validation: %s' % (pid, p))
